@@ -649,7 +649,12 @@ def depends(F, fn, d, op, max_locals=400, use_bb=None):
                 for ta in (t.get("fn") or {}).get("targs", []) or []:
                     m = _re.match(r"\{closure@([^:]+):(\d+):", ta)
                     if m:
-                        for cp in F.closures_of(fn.path):
+                        cands = list(F.closures_of(fn.path))
+                        # code inlined from a helper brings closures that belong to the helper: find them by their span
+                        if not any((F.fns[cp].d.get("span") or {}).get("lo") == int(m.group(2)) for cp in cands):
+                            cands = [cp for cp, cf_ in F.fns.items() if cf_.kind == "Closure" and (cf_.d.get("span") or {}).get("lo") == int(m.group(2))
+                                     and (cf_.d.get("span") or {}).get("file", "").endswith(m.group(1).split("/")[-1])]
+                        for cp in cands:
                             cf = F.fns[cp]
                             sp = cf.d.get("span") or {}
                             if sp.get("lo") == int(m.group(2)):
